@@ -28,7 +28,7 @@ class C36(Check):
                            "ioflo.aio.tcp Server/Incomer/Client"],
                   "stub": ["socket module", "send-side packets (pre-packed bytes)"]}
     assumptions = ["no connection loss is injected while packets are queued (C25/C27 cover it): the property speaks of a connected peer; the only close is the orderly one of the epilogue, after the sender's last byte has left"]
-    required_probes = ["partial-send", "both-directions", "two-clients", "completed", "sender-closed-after-last-packet", "broadcast", "same-packet-queued-again"]
+    required_probes = ["partial-send", "both-directions", "two-clients", "completed", "sender-closed-after-last-packet", "broadcast", "same-packet-queued-again", "peer-left"]
     quick_runs = 8000
     thorough_runs = 400000
     shrink_fields = ["schedule", "ops"]
@@ -58,6 +58,8 @@ class C36(Check):
         # epilogue: one more packet, then the sender's end of the connection is closed before the receiver is serviced again,
         # so that the receiver reads the last bytes and the end of stream in one service pass (received bytes must still be delivered)
         return {"nclients": nc, "cap": g.choice([1, 3, 8, 64]), "ops": ops, "schedule": sched,
+                # one of two clients leaves in the middle; packets the server still queues for it must not hold up the other peer
+                "leave": [g.randrange(nc), g.randint(0, 20)] if nc == 2 and g.random() < 0.25 else None,
                 "closing": g.choice([None, None, ["s2c", g.randrange(nc), g.choice([1, 5, 30])], ["c2s", g.randrange(nc), g.choice([1, 5, 30])]])}
 
     def execute(self, plan):
@@ -94,10 +96,19 @@ class C36(Check):
                 out.digest = tr.digest()
                 return out
 
+            gone = set()
+
             def guarded(name, fn):
                 try:
                     fn()
                     return True
+                except ValueError as ex:
+                    if gone and name.startswith("TcpServerStack"):
+                        out.probe("send-to-departed-peer-raised")      # no connection for that address any more: raising is the library's answer
+                        return True
+                    import traceback
+                    out.violate("exception", "%s raised %s" % (name, type(ex).__name__), "%r\n%s" % (ex, traceback.format_exc()[-600:]))
+                    return False
                 except Exception as ex:
                     import traceback
                     out.violate("exception", "%s raised %s" % (name, type(ex).__name__), "%r\n%s" % (ex, traceback.format_exc()[-600:]))
@@ -127,6 +138,8 @@ class C36(Check):
                     op = ops.pop(0)
                     kind, k, n = op[0], op[1], op[2]
                     k = k % nc
+                    if k in gone and kind != "bcast":
+                        return          # nothing more is exchanged with a peer that left
                     payload = (b"<%d|" % serial[0] + bytes((serial[0] * 31 + j) % 251 for j in range(n)))[:max(n, 4)]
                     serial[0] += 1
                     pkt = FakePkt(bytearray(payload))       # real packets keep their packed form in a bytearray
@@ -140,6 +153,8 @@ class C36(Check):
                         elif kind == "bcast":
                             out.probe("broadcast")
                             for kk in range(nc):
+                                if kk in gone:
+                                    continue
                                 srv.transmit(pkt, cas[kk])
                                 sent_s2c[kk].extend(payload)
                         else:
@@ -154,6 +169,8 @@ class C36(Check):
                 def check(final=False):
                     r_s, r_c = received()
                     for k in range(nc):
+                        if k in gone:
+                            continue
                         for name, got, want in (("server from client %d" % k, r_s[k], bytes(sent_c2s[k])), ("client %d from server" % k, r_c[k], bytes(sent_s2c[k]))):
                             if got != want[:len(got)]:
                                 out.violate("corrupt", "received packets are not a prefix of what was queued", "%s: got %r queued %r" % (name, got, want))
@@ -167,6 +184,8 @@ class C36(Check):
                 def step(st):
                     code = st[0]
                     if code == "c":
+                        if st[1] % nc in gone:
+                            return True
                         return guarded("TcpClientStack.serviceAll", clients[st[1] % nc].serviceAll)
                     if code == "s":
                         return guarded("TcpServerStack.serviceAll", srv.serviceAll)
@@ -184,9 +203,22 @@ class C36(Check):
                         w.txpipe.deliver(st[2])
                     return True
 
-                for st in plan["schedule"]:
+                lv = plan.get("leave")
+                for si, st in enumerate(plan["schedule"]):
                     tr.add("st", st)
-                    if not (step(st) and check()):
+                    if lv and si == lv[1] and not gone:
+                        k = lv[0] % nc
+                        gone.add(k)
+                        out.probe("peer-left")
+                        clients[k].handler.cs.close()
+                        net.deliver_all()
+                        for _ in range(3):      # the server notices the departure and drops the connection
+                            if not guarded("TcpServerStack.serviceAll", srv.serviceAll):
+                                ok = False
+                            net.deliver_all()
+                        # the application does not know yet: it queues one more packet for the peer that left, then goes on with the other
+                        srv.transmit(FakePkt(bytearray(b"<for-the-departed>")), cas[k])
+                    if not ok or not (step(st) and check()):
                         ok = False
                         break
                     out.steps += 1
@@ -200,12 +232,12 @@ class C36(Check):
                             ok = False
                             break
                     r_s, r_c = received()
-                    if ok and not ops and all(r_s[k] == bytes(sent_c2s[k]) and r_c[k] == bytes(sent_s2c[k]) for k in range(nc)):
+                    if ok and not ops and all(r_s[k] == bytes(sent_c2s[k]) and r_c[k] == bytes(sent_s2c[k]) for k in range(nc) if k not in gone):
                         break
                 if ok and check(final=True):
                     out.probe("completed")
                 cl = plan.get("closing")
-                if ok and cl and not out.violations:
+                if ok and cl and not out.violations and (cl[1] % nc) not in gone:
                     kind, k, n = cl[0], cl[1] % nc, cl[2]
                     payload = (b"<Z|" + bytes((7 * j) % 251 for j in range(n)))[:max(n, 4)]
                     big = 1 << 20
